@@ -42,9 +42,21 @@ func (c *Cluster) byzForgeStep(s *Step) {
 	}
 	r := c.inner
 	op := forgeOps[s.N%len(forgeOps)]
-	f := c.forge(victim, byz, r, op)
+	var f *forgedEvent
+	if c.lastForgedEv != nil && c.lastForgedVictim == victim.idx && c.lastForgedEpoch == victim.epoch && r.Bool(0.25) {
+		// the very same inadmissible event again (a retry): a verdict must not
+		// depend on having seen the event before
+		f = c.lastForgedEv
+		op = f.op
+		c.stats.probe("c07-same-event-offered-again")
+	} else {
+		f = c.forge(victim, byz, r, op)
+	}
 	if f == nil {
 		return
+	}
+	if !f.admissible {
+		c.lastForgedEv, c.lastForgedVictim, c.lastForgedEpoch = f, victim.idx, victim.epoch
 	}
 	if f.admissible {
 		// the forger does not equivocate with its valid events: only extend its
